@@ -20,11 +20,12 @@ package php7
 //@   modifies nothing
 //@   props C09, C06
 
-// The LR driver (yyParse) is generated code outside the contract engine's reach; this contract is
-// assumed, not proved (DESIGN §7.7). It says nothing, so callers learn nothing from it.
+// The wrapper clears the root and runs the LR driver on a fresh yyParserImpl; the driver's
+// precondition is discharged here (E-VC), the driver itself is verified by E-DRV (below).
 //@ func (*Parser).Parse
 //@   requires p != nil
-//@   trusted goyacc LR driver
+//@   ensures result == 0 || result == 1
+//@   props C01, C06
 
 // ---------------------------------------------------------------------------------------------
 // E-GRAM: ghost yields of the parser-private carrier types (they have no printer method). A wrong
@@ -82,3 +83,67 @@ package php7
 //@ gram slot-terminal-only ExprList.OpenBracketTkn '[' : short list syntax `[$a, $b]` as a foreach target is PHP 7.1+ (not shared syntax)
 //@ gram slot-terminal-only ExprList.CloseBracketTkn ']' : short list syntax `[$a, $b]` as a foreach target is PHP 7.1+ (not shared syntax)
 //@ gram slot-terminal-only Identifier.IdentifierTkn T_CLASS : `X::class` - php5 has a dedicated rule taking T_CLASS directly, php7 reaches the same slot through the non-terminal `identifier`
+
+// ---------------------------------------------------------------------------------------------
+// E-DRV: the goyacc LR driver (*yyParserImpl).Parse, verified as generated. The semantic actions
+// (the `case k` regions) are abstracted by their frame, computed from their code on every run;
+// they are verified one by one by E-GRAM. `drv table` facts are decided by exhaustive evaluation
+// of the arrays as they stand in php7.go and then assumed; uf_<table>(i) is element i of a table,
+// n_<table> its length. uf_yyExcaHdr(s) / uf_yyExcaEnd(s) are witness tables derived from yyExca
+// (index of the header pair of state s, index of the terminator pair of its group); the facts that
+// use them are checked like every other fact, so a wrong witness makes its fact false.
+//@ func (*yyParserImpl).Parse
+//@   requires yyrcvr != nil && typeis(yylex, "internal/php7.Parser") && as(yylex, "internal/php7.Parser") != nil
+//@   ensures result == 0 || result == 1
+//@   ensures result == 1 ==> errcalls() >= 1
+//@   props C01, C06
+
+//@ drv table lengths : n_yyPact == n_yyDef && n_yyPact == n_yyChk && n_yyR1 == n_yyR2 && yyLast == n_yyAct && n_yyExca % 2 == 0
+//@ drv table act-range : forall i :: 0 <= i && i < n_yyAct ==> 0 <= uf_yyAct(i) && uf_yyAct(i) < n_yyPact
+//@ drv table def-range : forall s :: 0 <= s && s < n_yyDef ==> -2 <= uf_yyDef(s) && uf_yyDef(s) != -1 && uf_yyDef(s) < n_yyR2
+//@ drv table r1-range : forall r :: 0 <= r && r < n_yyR1 ==> 0 <= uf_yyR1(r) && uf_yyR1(r) < n_yyPgo
+//@ drv table r2-range : forall r :: 0 <= r && r < n_yyR2 ==> 0 <= uf_yyR2(r)
+//@ drv table pgo-range : forall a :: 0 <= a && a < n_yyPgo ==> 0 <= uf_yyPgo(a) && uf_yyPgo(a) < n_yyAct
+//@ drv table exca-act : forall s, j :: 0 <= s && s < n_yyDef && 0 <= j && j < n_yyExca ==> ((uf_yyDef(s) == -2 && uf_yyExcaHdr(s) < j && j <= uf_yyExcaEnd(s) && j % 2 == 0) ==> uf_yyExca(j + 1) < n_yyR2)
+//@ drv table exca-hdr : forall s :: 0 <= s && s < n_yyDef ==> (uf_yyDef(s) == -2 ==> (0 <= uf_yyExcaHdr(s) && uf_yyExcaHdr(s) % 2 == 0 && uf_yyExcaHdr(s) + 1 < n_yyExca && uf_yyExca(uf_yyExcaHdr(s)) == -1 && uf_yyExca(uf_yyExcaHdr(s) + 1) == s))
+//@ drv table exca-end : forall s :: 0 <= s && s < n_yyDef ==> (uf_yyDef(s) == -2 ==> (uf_yyExcaHdr(s) < uf_yyExcaEnd(s) && uf_yyExcaEnd(s) % 2 == 0 && uf_yyExcaEnd(s) + 1 < n_yyExca && uf_yyExca(uf_yyExcaEnd(s)) < 0))
+//@ drv table exca-first : forall s, j :: 0 <= s && s < n_yyDef && 0 <= j && j < n_yyExca ==> ((uf_yyDef(s) == -2 && j < uf_yyExcaHdr(s) && j % 2 == 0) ==> !(uf_yyExca(j) == -1 && uf_yyExca(j + 1) == s))
+//@ drv table flag-has-default : forall s :: 0 <= s && s < n_yyPact ==> (uf_yyPact(s) <= yyFlag ==> uf_yyDef(s) != 0)
+
+// LR stack discipline: the one fact about the driver that is a property of goyacc's construction
+// and not of the code. It is injected after `yyp -= yyR2[yyn]`, listed as an assumption, and backed
+// by the table lemma lr-depth (a fixpoint over the tables as they stand).
+//@ drv lr-discipline yyp - yyR2[yyn] >= 0 at a reduction by rule yyn
+
+// candidate invariants, instantiated at every cut point of the driver and pruned (Houdini)
+//@ drv inv yyrcvr != nil
+//@ drv inv typeis(yylex, "internal/php7.Parser") && as(yylex, "internal/php7.Parser") != nil
+//@ drv inv yyrcvr.char >= 0 ==> as(yylex, "internal/php7.Parser").currentToken != nil
+//@ drv inv as(yylex, "internal/php7.Parser").currentToken != nil
+//@ drv inv len(yyS) >= 1
+//@ drv inv -1 <= yyp
+//@ drv inv 0 <= yyp
+//@ drv inv yyp < len(yyS)
+//@ drv inv 0 <= yystate && yystate < n_yyPact
+//@ drv inv forall r :: elemref(yyS, 0) <= r && r <= elemref(yyS, yyp) ==> (0 <= fieldat("internal/php7.yySymType", "yys", r) && fieldat("internal/php7.yySymType", "yys", r) < n_yyPact)
+//@ drv inv 0 <= Errflag && Errflag <= 3
+//@ drv inv 0 <= Nerrs
+//@ drv inv Errflag > 0 ==> Nerrs > 0
+//@ drv inv errcalls() == Nerrs
+//@ drv inv Errflag == 3 && Nerrs > 0
+//@ drv inv uf_yyDef(yystate) == -2
+//@ drv inv xi % 2 == 0 && 0 <= xi && xi <= uf_yyExcaHdr(yystate)
+//@ drv inv xi % 2 == 0 && uf_yyExcaHdr(yystate) < xi && xi <= uf_yyExcaEnd(yystate)
+
+// The two generated helpers the driver calls. Their bodies index the token tables and (yyErrorMessage)
+// range over the message table; they are not verified here (listed as trusted in the evidence): the
+// driver proof uses only what is stated below.
+//@ func yylex1
+//@   requires lval != nil && typeis(lex, "internal/php7.Parser") && as(lex, "internal/php7.Parser") != nil && lexinv(as(lex, "internal/php7.Parser").Lexer)
+//@   ensures as(lex, "internal/php7.Parser").currentToken != nil
+//@   trusted goyacc token translation (calls lex.Lex, then maps the token through yyTok1/yyTok2/yyTok3)
+
+//@ func yyErrorMessage
+//@   ensures strlen(result) > 0
+//@   modifies nothing
+//@   trusted goyacc message builder
